@@ -179,6 +179,33 @@ def concrete_checks(chk):
             if sorted(m3.nodes) != sorted(m1.nodes):
                 chk.violation(f"copy-true-vs-false:{name}", f"[{name}] copy=True and copy=False builds differ in their node sets", dict(reproduced=True, observed=dict(copy=sorted(m1.nodes), plain=sorted(m3.nodes))))
         chk.guarded(f"copy-true:{name}", f"[{name}] build_model(copy=True)", two)
+    # histories: nodes that were part of an earlier model (popped, or dropped without popping -- nodes hold only a weak reference to
+    # their model) are rewired and built again; the new model's outputs must again be the exact inverse of its inputs
+    def history(how, copy_flag):
+        import gc
+        a, b = lsl.Var(1.0, name="a"), lsl.Var(2.0, name="b")
+        c = lsl.Var(lsl.Calc(lambda x, y: x + y, a, b), name="c")
+        m = lsl.GraphBuilder().add(c).build_model()
+        if how == "pop":
+            m.pop_nodes_and_vars()
+        del m
+        gc.collect()
+        c.value_node = lsl.Calc(lambda y: 10.0 * y, b)          # c no longer depends on a
+        m = lsl.GraphBuilder().add(a, c).build_model(copy=copy_flag)
+        pr = structure_problems(m)
+        m.vars["a"].value = 5.0
+        m.vars["b"].value = 7.0
+        if float(m.vars["c"].value) != 70.0:
+            pr.append(f"c = {float(m.vars['c'].value)} after setting b = 7 (c = 10 b)")
+        return pr
+    for how in ("pop", "drop-without-pop"):
+        for copy_flag in (False, True):
+            nm = f"build, {how}, rewire, build_model(copy={copy_flag})"
+            pr = chk.guarded(f"history:{nm}", f"[{nm}]", history, how, copy_flag)
+            if pr:
+                chk.violation(f"history:{nm}", f"[{nm}] " + "; ".join(pr), dict(reproduced=True, observed=dict(problems=pr), note="concrete history on the real code"))
+            chk.enumerated.append(f"history: {nm}")
+
     # rejected graphs: cycles and duplicate names
     def cyc1():
         v = lsl.Value(1.0, _name="v")
